@@ -194,6 +194,8 @@ def compare(items, o, adj):
             break
     if items and items[-1].framing == "unknown":
         return fails  # what follows a message of unknowable framing is not judged
+    if len(items) >= REQ.MAX_ITEMS:
+        return fails  # the reference stops after MAX_ITEMS messages: what follows is not judged
     if ri < len(finals) and not fails:
         fail("extra-response", "%d response(s) beyond the %d messages of the reference" % (len(finals) - ri, len(items)))
     return fails
